@@ -85,7 +85,9 @@ func c17Grammar() *gen.Grammar {
 		gen.Bin("in", gen.TStr, gen.TStr, T), gen.Bin("in", gen.TInt, gen.TIntArr, T), gen.Bin("and", gen.TInt, gen.TInt, T), gen.Bin("and", T, T, T),
 		gen.Bin("+", gen.TObj, gen.TObj, gen.TStr),
 		gen.Var("X", gen.TAny), gen.Var("Y", gen.TAny), gen.Lit("nil", gen.TNil, nil),
-		gen.Bin("+", gen.TAny, gen.TInt, gen.TFunc), gen.Bin("+", gen.TAny, gen.TAny, gen.TFunc), // TFunc: a dynamic sum that no other rule consumes (the checker types it optimistically) gen.Bin("==", gen.TObj, gen.TNil, T), gen.Bin("==", gen.TAny, gen.TAny, T),
+		// TFunc: a dynamic sum that no other rule consumes (the checker types it optimistically)
+		gen.Bin("+", gen.TAny, gen.TInt, gen.TFunc), gen.Bin("+", gen.TAny, gen.TAny, gen.TFunc),
+		gen.Bin("==", gen.TObj, gen.TNil, T), gen.Bin("==", gen.TAny, gen.TAny, T),
 		// contexts
 		gen.Index(gen.TIntArr, gen.TInt, gen.TInt), gen.Slice("f", gen.TIntArr), gen.Slice("ft", gen.TIntArr), gen.Slice("t", gen.TStr), gen.Index(gen.TObjArr, gen.TInt, gen.TObj),
 		gen.Call("Id", gen.TInt, gen.TInt), gen.Call("Sum", gen.TInt, gen.TInt, gen.TInt), gen.Call("Cat", gen.TStr, gen.TStr, gen.TStr),
